@@ -163,6 +163,19 @@ func checkC19(c c19Case) string {
 	if msg != "" {
 		return msg
 	}
+	// 4. the time zone the process runs in: the clock's and the metadata's dates carry their own
+	loc := time.Local
+	time.Local = time.FixedZone("far-west", -11*3600)
+	zoned, msg := writeAllAt(c.Spec.build(), c19NowA, nil)
+	time.Local = loc
+	if msg != "" {
+		return msg
+	}
+	for _, f := range writerFormats {
+		if !bytes.Equal(zoned[f], ref[f]) {
+			return fmt.Sprintf("%s output of the same list with the same clock differs when the process runs in another time zone (UTC-11)\n--- first ---\n%s\n--- then ---\n%s", f, clip(string(ref[f]), 900), clip(string(zoned[f]), 900))
+		}
+	}
 	for _, f := range writerFormats {
 		a, b := ref[f], other[f]
 		if f == "stl" && !(c.Spec.Meta.STL != nil && c.Spec.Meta.STLDates && !c.Spec.Meta.Nil) && len(a) == len(b) && len(a) >= 1024 {
@@ -204,6 +217,8 @@ func TestC19Child(t *testing.T) {
 	}
 	// what a process wrote earlier must not matter: half of the children go through the batch backwards
 	if os.Getenv("VERIF_C19_ORDER") == "rev" {
+		// nor the time zone it runs in
+		time.Local = time.FixedZone("far-east", 13*3600)
 		for i, j := 0, len(cases)-1; i < j; i, j = i+1, j-1 {
 			cases[i], cases[j] = cases[j], cases[i]
 		}
